@@ -5,15 +5,18 @@
 \* (agg x value shape).  Transcription with the F8/F9 repairs; F17 carved out.
 \* + empty / backwards range extents (every metric header, a few extras per kind); map keys: text, bool,
 \* i64, f64, bytes, sequence.
+\* + carriers: the properties as one slice, as And of two maps, as event + ambient ThreadLocalCtxt frame through
+\* emit_core::emit (12 x 12 cross-side pairs x 3 kinds x 2 carriers).
 SPECIFICATION Spec
 CONSTANTS
     Events <- MC_Events
     FixF8 = TRUE
     FixF9 = TRUE
+    AndClaimsUnique = FALSE
     CarveF17 = TRUE
     Emit = TRUE
     MaxExtras = 2
     Tier = "quick"
-INVARIANTS TypeOK AttrKeysUnique EveryPropOnce FirstWins WellKnownLifted Total Refines
+INVARIANTS TypeOK UniqueClaimSound AttrKeysUnique EveryPropOnce FirstWins WellKnownLifted Total Refines
 ACTION_CONSTRAINT EmitReplay
 CHECK_DEADLOCK FALSE
